@@ -180,7 +180,7 @@ func (p *Prog) wireSig(fn *ssa.Function, side string, depth int) []WireTok {
 						}
 						out = append(out, WireTok{Kind: k, Field: f})
 					}
-				} else if obj != nil && depth > 0 && passesStream(info, e) {
+				} else if obj != nil && depth > 0 && (passesStream(info, e) || p.privateHelperOnBytes(info, fn, obj, e)) {
 					if callee := p.funcOfObj(obj); callee != nil && p.InRepo(callee) {
 						out = append(out, p.wireSig(callee, side, depth-1)...)
 					}
@@ -410,4 +410,34 @@ func itoa(i int) string { return strconv.Itoa(i) }
 func sameOwner(a, b string) bool {
 	ia, ib := strings.LastIndex(a, "."), strings.LastIndex(b, ".")
 	return ia > 0 && ib > 0 && a[:ia] == b[:ib]
+}
+
+// privateHelperOnBytes: the callee is an unexported function of the caller's
+// package that either is a method called on the caller's own receiver or
+// receives a plain []byte: a piece of the encoder/decoder moved into a private
+// helper continues the same byte stream. (Exported accessors of named header
+// types are not inlined: they address fixed offsets, not the stream.)
+func (p *Prog) privateHelperOnBytes(info *types.Info, caller *ssa.Function, obj *types.Func, call *ast.CallExpr) bool {
+	if obj.Exported() || obj.Pkg() == nil || fnPkg(caller) == nil || obj.Pkg().Path() != fnPkg(caller).Path() {
+		return false
+	}
+	if sel, ok := call.Fun.(*ast.SelectorExpr); ok {
+		if id, ok := sel.X.(*ast.Ident); ok && caller.Signature.Recv() != nil {
+			if v, ok := info.Uses[id].(*types.Var); ok && v.Name() == caller.Signature.Recv().Name() && types.Identical(v.Type(), caller.Signature.Recv().Type()) {
+				return true
+			}
+		}
+	}
+	for _, a := range call.Args {
+		tv, ok := info.Types[a]
+		if !ok {
+			continue
+		}
+		if sl, ok := tv.Type.(*types.Slice); ok {
+			if b, ok := sl.Elem().(*types.Basic); ok && b.Kind() == types.Uint8 {
+				return true
+			}
+		}
+	}
+	return false
 }
